@@ -371,6 +371,14 @@ def hotDeliver {α} (msgs : List (Msg α)) (created sub disp : Int) : List (Msg 
   let q := enqueueAll [] (msgs.map fun (t, n) => (created + t, n))
   (runQueue created q).filter (fun (t, _) => sub < t && t ≤ disp)
 
+/-- `hot(...)` created at clock `created` from INSIDE a scheduled action (e.g. the `create` callback of
+`TestScheduler.start`), the subscribe and dispose actions having been scheduled before the run: the
+hot observable's own actions are then the youngest in the queue, so at equal due time the subscribe
+(and the dispose) action goes first — a subscriber at `sub ≥ created` sees exactly the notifications
+due in `[sub, disp)`. -/
+def hotDeliverLate {α} (msgs : List (Msg α)) (created sub disp : Int) : List (Msg α) :=
+  (enqueueAll [] (msgs.map fun (t, n) => (created + t, n))).filter (fun (t, _) => sub ≤ t && t < disp)
+
 /-! ### the delivery loop of `hot` over several observers
 
 `hot` keeps a list `observers` and runs `for observer in observers: notification.accept(observer)`.
